@@ -528,6 +528,7 @@ func c12Damage(c core.Case, cc c12Case, w *core.Worker) core.Result {
 		panicOnly := false
 		desc := ""
 		first := int64(-1)
+		extraFeat := map[string]string{}
 		switch k := r.Intn(8); {
 		case k < 2:
 			n := r.Range(1, 64)
@@ -543,7 +544,13 @@ func c12Damage(c core.Case, cc c12Case, w *core.Worker) core.Result {
 			desc = fmt.Sprintf("overwrite %s [%d,+%d)", name, off, len(garb))
 		case k < 4:
 			var L int64
-			if r.Chance(1, 2) && len(b) > 0 {
+			if r.Chance(1, 5) && name != dfs[len(dfs)-1] {
+				// cut an older file exactly at a record boundary
+				raws, _, _ := vfmt.ScanRaw(b, 0)
+				if len(raws) > 0 {
+					L = raws[r.Intn(len(raws))].Start
+				}
+			} else if r.Chance(1, 2) && len(b) > 0 {
 				lo := int64(len(b)) - 2*vfmt.Block
 				if lo < 0 {
 					lo = 0
@@ -556,6 +563,20 @@ func c12Damage(c core.Case, cc c12Case, w *core.Worker) core.Result {
 			first = L
 			tail = rel == p.newest
 			desc = fmt.Sprintf("truncate %s %d->%d", name, len(b), L)
+			extraFeat["file"] = "older"
+			if rel == p.newest {
+				extraFeat["file"] = "newest"
+			}
+			extraFeat["cut"] = "inside-record"
+			raws, _, _ := vfmt.ScanRaw(b, 0)
+			for _, rc := range raws {
+				if rc.Start == L || rc.End == L {
+					extraFeat["cut"] = "record-boundary"
+				}
+			}
+			if L == 0 {
+				extraFeat["cut"] = "record-boundary"
+			}
 		case k < 7:
 			nb := (len(b) + vfmt.Block - 1) / vfmt.Block
 			bi := r.Intn(nb)
@@ -618,7 +639,11 @@ func c12Damage(c core.Case, cc c12Case, w *core.Worker) core.Result {
 		res.SetAdd("fault_kinds", strings.Fields(desc)[0])
 		descs = append(descs, desc+" -> "+o)
 		if v != "" {
-			res.Violate(fmt.Sprintf("%s: %s", desc, v), map[string]string{"class": "damage", "fault": strings.Fields(desc)[0], "outcome": o},
+			f := map[string]string{"class": "damage", "fault": strings.Fields(desc)[0], "outcome": o}
+			for k2, v2 := range extraFeat {
+				f[k2] = v2
+			}
+			res.Violate(fmt.Sprintf("%s: %s", desc, v), f,
 				map[string]any{"config": cfg, "fault": desc, "tail_window": tail})
 			if len(res.Violations) >= 6 {
 				return res
